@@ -440,6 +440,10 @@ func (r *Resolver) onMap(g *Scope, name string, t *parser.Type, v *parser.ConstV
 			if err != nil {
 				return "", err
 			}
+			if t.KeyType.Category == parser.Category_Binary && mcv.Key.Type == parser.ConstType_ConstIdentifier {
+				// binary keys are strings in go, a binary constant is a []byte
+				key = "string(" + key + ")"
+			}
 			valName := "value of " + name
 			val, err := r.resolveConst(g, valName, t.ValueType, mcv.Value)
 			if err != nil {
